@@ -1,10 +1,13 @@
 use super::binding::{SoapBinding, SoapOperation};
 use crate::{
     error::{WriterError, WriterResult},
-    model::{TryFromNode, field::resolve_type},
+    model::{
+        TryFromNode,
+        field::{as_field_name, resolve_type},
+    },
     reader::WriteXml,
 };
-use inflector::cases::{pascalcase::to_pascal_case, snakecase::to_snake_case};
+use inflector::cases::pascalcase::to_pascal_case;
 use reqwest::Url;
 use std::{io, rc::Rc};
 
@@ -108,7 +111,7 @@ where
     W: io::Write,
 {
     // generate an async fn for the operation
-    let rust_fn_name = to_snake_case(operation_name);
+    let rust_fn_name = as_field_name(operation_name);
     // the envelope types are named after the PascalCase operation name (see binding/writer.rs)
     let operation_name = to_pascal_case(operation_name);
     let request_name = format!("{operation_name}InputEnvelope");
